@@ -438,8 +438,9 @@ def inject_and_finish(w0, kind, target, label, payload, src=None, continuous=Fal
     def go():
         if kind == 'dgram':
             w.step(('inject', target, payload, src))
-            if label.startswith('auth:') and w.endpoints[target].alive:
-                w.step(('inject', target, payload, src))      # and its natural retransmission
+            if w.endpoints[target].alive:
+                w.step(('inject', target, payload, src))      # and its natural retransmission (any sender repeats what
+                #                                                 was not answered)
         else:
             w.step(('kevent', target, payload))
     try:
